@@ -9,15 +9,15 @@ SPEC = {'level': 'exploration',
                  'every generated block carries at most ONE defect: with two defects of different categories serial and parallel validation legitimately report different ones',
                  'regtest node, 104-block base, script/signature caches empty (every script really runs); serial run = 0 workers, 0 fetchers, immediate signals',
                  'absence of data races is evidence from ThreadSanitizer on exactly these runs (x86-64, gcc 12 libtsan), not a guarantee'],
- 'stages': [gen('vh_c14', 'c14_parallel', 256, 6000, min_cases_quick=96, replays_needed=2, replays_total=5,
+ 'stages': [gen('vh_c14', 'c14_parallel', 128, 6000, min_cases_quick=48, replays_needed=2, replays_total=5,
                 floors={'workers>=2': 0.4, 'fetchers>=2': 0.3, 'bad-script-after-first-batch': 0.08, 'defect:none': 0.2, 'defect:missing-input': 0.03},
                 rule='block sequences under (workers, fetchers, scheduler thread) vs serial run; non-trivial = >=2 script workers and a >=4-tx block valid or with its defect after the first tx'),
-            gen('vh_c14', 'c14_overlay', 3200, 200000, min_cases_quick=1000, replays_needed=2, replays_total=5,
+            gen('vh_c14', 'c14_overlay', 2400, 200000, min_cases_quick=800, replays_needed=2, replays_total=5,
                 floors={'flushed': 0.15, 'reset': 0.3, 'threads=2-4': 0.2, 'threads=8+': 0.08, 'missing-input-path': 0.1},
                 rule='CoinsViewOverlay vs std::map model of direct lookups; non-trivial = >=2 fetch threads and >=6 look-ups'),
-            gen('vh_c14', 'c14_parallel_tsan', 24, 1600, cfg='tsan', workers_quick=4, workers_thorough=8, min_cases_quick=8, replays_needed=2, replays_total=5,
+            gen('vh_c14', 'c14_parallel_tsan', 12, 1600, cfg='tsan', workers_quick=4, workers_thorough=8, min_cases_quick=4, replays_needed=2, replays_total=5,
                 rule='same target in the ThreadSanitizer build (any TSan / lock-order report is a failure)'),
-            gen('vh_c14', 'c14_overlay_tsan', 600, 60000, cfg='tsan', workers_quick=4, workers_thorough=8, min_cases_quick=200, replays_needed=2, replays_total=5,
+            gen('vh_c14', 'c14_overlay_tsan', 400, 60000, cfg='tsan', workers_quick=4, workers_thorough=8, min_cases_quick=120, replays_needed=2, replays_total=5,
                 rule='same target in the ThreadSanitizer build (any TSan report is a failure)')]}
 
 # VERIF_NO_TSAN=1 drops the ThreadSanitizer stages (used for sensitivity runs of mutants that only the differential/log oracle can see:
